@@ -83,6 +83,38 @@ def with_form(tree):
     return n
 
 
+def unpack_form(tree):
+    """a = E[0]; b = E[1]; ... (consecutive, E one plain name, all positions from 0 in order)  ->  a, b, ... = E"""
+    n = 0
+    for lst in _all_stmt_lists(tree):
+        i = 0
+        while i < len(lst):
+            run = []
+            j = i
+            src = None
+            while j < len(lst):
+                st = lst[j]
+                if isinstance(st, ast.Assign) and len(st.targets) == 1 and isinstance(st.targets[0], ast.Name) and \
+                        isinstance(st.value, ast.Subscript) and isinstance(st.value.value, ast.Name) and \
+                        isinstance(st.value.slice, ast.Constant) and st.value.slice.value == len(run) and \
+                        (src is None or st.value.value.id == src):
+                    src = st.value.value.id
+                    run.append(st)
+                    j += 1
+                else:
+                    break
+            names = [st.targets[0].id for st in run]
+            if len(run) >= 2 and len(set(names)) == len(names) and src not in names:
+                new = ast.Assign([ast.Tuple([ast.Name(x, ast.Store()) for x in names], ast.Store())],
+                                 ast.Name(src, ast.Load()))
+                ast.copy_location(new, run[0])
+                ast.fix_missing_locations(new)
+                lst[i:j] = [new]
+                n += 1
+            i += 1
+    return n
+
+
 def _single_if(body):
     """body is `if C: <stmts>` without else: (C, stmts)"""
     if len(body) == 1 and isinstance(body[0], ast.If) and not body[0].orelse:
@@ -148,7 +180,7 @@ def builder_forms(tree, is_new):
                 b = lst[i + 1] if i + 1 < len(lst) else None
                 if isinstance(a, ast.Assign) and len(a.targets) == 1 and isinstance(a.targets[0], ast.Name) and \
                         isinstance(a.value, ast.List) and not a.value.elts and isinstance(b, ast.For) and \
-                        not b.orelse and is_new(fn, a.targets[0].id):
+                        not b.orelse:
                     v = a.targets[0].id
                     c, inner = _single_if(b.body)
                     if c is None:
